@@ -10,7 +10,7 @@
    line, every machine with its three non-empty sections) and [csim] (no CR and no run of four
    spaces inside keys and values).  Err codes: [ecode class line]. *)
 From Elvis Require Import Model.Base Model.Ndl Proofs.NdlFacts Proofs.NdlRound Proofs.NdlFile
-  Proofs.NdlRewrite Proofs.NdlReject Proofs.NdlWitness Proofs.NdlSummary.
+  Proofs.NdlRewrite Proofs.NdlReject Proofs.NdlWitness Proofs.NdlSummary Proofs.NdlSound.
 Local Open Scope Z_scope.
 
 (* ---- parsing is the inverse of rendering -------------------------------------------------- *)
@@ -61,6 +61,25 @@ Theorem C19_roundtrip_refuted :
 Proof. exact sum_roundtrip_refuted_all. Qed.
 Print Assumptions C19_roundtrip_refuted.
 
+
+(* ---- soundness of acceptance ---------------------------------------------------------------- *)
+
+(* Whatever text is accepted, the structure returned is well-formed: every line has distinct,
+   well-formed arguments, every network has an id (all distinct) and at least one address line,
+   every machine has its Networks, Protocols and Applications sections, each non-empty and with
+   items of the right kind.  Contrapositive: a text whose only readings violate one of these
+   (missing required section, duplicate network id, duplicate argument, wrong nesting) is rejected,
+   in every context. *)
+Theorem C19_accept_sound : forall txt s, core_parse txt = Ok s -> wf_sim s.
+Proof. exact core_parse_sound. Qed.
+Print Assumptions C19_accept_sound.
+
+(* ... and rendering it canonically (in any of the renderings) and parsing again returns it *)
+Theorem C19_parse_render_idempotent : forall txt s, core_parse txt = Ok s ->
+  core_parse (render s) = Ok s /\ core_parse (render4 s) = Ok s /\
+  core_parse (crlf (render s)) = Ok s /\ core_parse (crlf (render4 s)) = Ok s.
+Proof. exact core_parse_idempotent. Qed.
+Print Assumptions C19_parse_render_idempotent.
 
 (* ---- well-formed prefixes are consumed (the contexts of the rejection lemmas) --------------- *)
 
